@@ -2031,3 +2031,47 @@ def c17_checks(repo: Repo, tier: str, res: CheckResult, seed: int) -> None:
             res.add(Finding("C17", "KIND.converter-field", MCP, "ModelCoercerProvider", f"{ident}: extra {sorted(extra)}",
                             f"converter {ident} passes unexpected arguments {sorted(extra)}", 0))
     res.count("KIND.converters", m, 50)
+
+
+# ================================================================================================ C14: soundness family (tier G)
+def c14_checks(repo: Repo, tier: str, res: CheckResult, seed: int) -> None:
+    recs = [r for r in run_child(repo, tier, seed, "soundness") if r.get("kind") == "soundness"]
+    CPR = "adaptix/_internal/conversion/coercer_provider.py"
+    n = 0
+    for r in recs:
+        if r.get("harness_error"):
+            raise AnalysisError(f"soundness harness failed on {r['src']} -> {r['dst']}: {r['harness_error']}")
+        n += 1
+        ident = f"{r['src']} -> {r['dst']}"
+        res.evaluated("G:soundness:" + ident, True)
+        refused = r["error"] is not None
+        want = r["want"]
+        if want == "refuse":
+            if not refused:
+                arg = ""
+                try:
+                    fn, _ = _parse_hook_source(r["source"])
+                    arg = norm(fn.body[0].value)[:120]
+                except Exception:  # noqa: BLE001
+                    pass
+                res.add(Finding("C14", "SOUND.unsound-pair-accepted", CPR, "coercer providers", ident,
+                                f"a converter for a field of type {r['src']} into a field of type {r['dst']} is produced (`{arg}`): "
+                                "values of the source type are not values of the destination type and nothing converts them", 0))
+            continue
+        if refused:
+            res.add(Finding("C14", "SOUND.sound-pair-refused", CPR, "coercer providers", ident,
+                            f"no converter for {r['src']} -> {r['dst']} although every source value is a destination value "
+                            f"(or is converted element-wise): {r['error']}", 0))
+            continue
+        fn, _ = _parse_hook_source(r["source"])
+        call = fn.body[0].value
+        arg = call.args[0] if call.args else (call.keywords[0].value if call.keywords else None)
+        bare = isinstance(arg, ast.Attribute) and norm(arg) == "data.x"
+        if want == "as-is" and not bare:
+            res.add(Finding("C14", "SOUND.as-is-expected", CPR, "coercer providers", f"{ident}: {norm(arg)[:60]}",
+                            f"{r['src']} -> {r['dst']} needs no conversion but the value goes through `{norm(arg)[:80]}`", 0))
+        if want == "rebuilt" and bare:
+            res.add(Finding("C14", "SOUND.container-handed-over", CPR, "coercer providers", ident,
+                            f"{r['src']} -> {r['dst']}: the source container is handed over unchanged although its class need not "
+                            "be the destination's (a MappingProxyType is not a dict, a tuple is not a list)", 0))
+    res.count("SOUND.type-pairs", n, 40)
